@@ -9,6 +9,7 @@ a listener registered since the SubConn last became READY (`opOk`).
 import GrpcProofs.Lemmas.PickFirstAddr
 import GrpcProofs.Lemmas.PickFirst
 import GrpcProofs.Lemmas.PickFirstReady
+import GrpcProofs.Lemmas.PickFirstSticky
 import GrpcModel.Generated.PickFirst
 namespace GrpcProofs.C34
 open GrpcModel.PickFirst GrpcProofs.Lemmas.PickFirst GrpcProofs.Lemmas.PickFirstAddr GrpcProofs.Lemmas.PickFirstReady
@@ -106,6 +107,22 @@ theorem tf_after_all_failed (s : St) (id err : Nat) (sd : SC) (ha : activeSC s i
 
 /- Full statement wanted (sticky TF): after TRANSIENT_FAILURE was reported for connection failures,
    CONNECTING is not reported until a SubConn becomes READY.  It is FALSE for the code as it is: -/
+
+/-- Sticky TRANSIENT_FAILURE, the part that holds (`_partial`: it excludes exactly the non-empty
+    resolver update of F13, and takes "no SubConn is READY" as part of the situation rather than
+    deriving it): in a balancer that is in TRANSIENT_FAILURE after its first pass ended with no READY
+    SubConn, every op other than a non-empty resolver update, a SubConn becoming READY and a
+    SubConn going CONNECTING→IDLE (`excluded`) reports nothing but TRANSIENT_FAILURE and leaves the
+    balancer in the same situation (unless it is Close) — so by induction it keeps reporting
+    TRANSIENT_FAILURE, never CONNECTING or IDLE, however long such a history is. -/
+theorem sticky_tf_partial (s : St) (hw : WF s) (hst : s.state = .tf) (hfp : s.firstPass = false)
+    (hnr : ∀ sc ∈ s.subConns, sc.raw ≠ .ready) (op : Op) (hok : opOk s op = true)
+    (hex : GrpcProofs.Lemmas.PickFirstSticky.excluded s op = false) :
+    (∀ st p, Ev.push st p ∈ (step s op).2.evs → st = .tf) ∧
+    (op ≠ .close → WF (step s op).1 ∧ (step s op).1.state = .tf ∧ (step s op).1.firstPass = false ∧
+      ∀ sc ∈ (step s op).1.subConns, sc.raw ≠ .ready) := by
+  obtain ⟨h1, h2⟩ := GrpcProofs.Lemmas.PickFirstSticky.inTF_step s op ⟨hw, hst, hfp, hnr⟩ hok hex
+  exact ⟨h1, fun hne => by obtain ⟨a, b, c, d⟩ := h2 hne; exact ⟨a, b, c, d⟩⟩
 
 /-- F13: resolver gives [A]; A fails → TRANSIENT_FAILURE; resolver gives [A, B]; B's SubConn reports
     CONNECTING → the balancer reports CONNECTING although no SubConn became READY. -/
